@@ -239,8 +239,10 @@ class SNAXXDMAAccelerator(
                                 cst = arith.ConstantOp.from_int_and_width(0, i32)
                                 result.append(([cst], cst.result))
                     else:
-                        cst = arith.ConstantOp.from_int_and_width(0, i32)
-                        result.append(([cst], cst.result))
+                        # no kernel in the body: all CSRs of the (bypassed) extension are set to 0
+                        for i in range(ext.csr_length):
+                            cst = arith.ConstantOp.from_int_and_width(0, i32)
+                            result.append(([cst], cst.result))
 
         return result
 
